@@ -892,6 +892,89 @@ REFACTORS = [
     r('C07-ref-capacity-guard-flipped', 'C07', E + 'tasks.py',
       "        if concurrency and ctx[self._CAPACITY] < concurrency:",
       "        if concurrency and concurrency > ctx[self._CAPACITY]:"),
+    r('C08-ref-delay-truthiness', 'C08', E + 'policies.py',
+      "        # No need to wait for a task if delay is 0\n"
+      "        if self.delay == 0:\n            return\n",
+      "        # No need to wait for a task if delay is 0\n"
+      "        if not self.delay:\n            return\n"),
+    r('C08-ref-timeout-membership', 'C08', E + 'policies.py',
+      "        if not states.is_completed(task_ex.state):\n"
+      "            msg = 'Task timed out",
+      "        if task_ex.state not in (states.SUCCESS, states.ERROR,\n"
+      "                                 states.CANCELLED, states.SKIPPED):\n"
+      "            msg = 'Task timed out"),
+    r('C11-ref-cascade-continue', 'C11', E + 'workflow_handler.py',
+      "            for sub_wf_ex in sub_wf_exs:\n"
+      "                if not states.is_completed(sub_wf_ex.state):\n"
+      "                    stop_workflow(sub_wf_ex, state, msg=msg)",
+      "            for sub_wf_ex in sub_wf_exs:\n"
+      "                if states.is_completed(sub_wf_ex.state):\n"
+      "                    continue\n\n"
+      "                stop_workflow(sub_wf_ex, state, msg=msg)"),
+    r('C09-ref-accepted-two-stores', 'C09', E + 'workflows.py',
+      "        self.wf_ex.accepted = states.is_completed(state)\n\n"
+      "        if states.is_completed(state):\n"
+      "            triggers.on_workflow_complete(self.wf_ex)",
+      "        if states.is_completed(state):\n"
+      "            self.wf_ex.accepted = True\n\n"
+      "            triggers.on_workflow_complete(self.wf_ex)\n"
+      "        else:\n            self.wf_ex.accepted = False"),
+    r('C07-ref-accepted-two-stores', 'C07', E + 'workflows.py',
+      "        self.wf_ex.accepted = states.is_completed(state)\n\n"
+      "        if states.is_completed(state):\n"
+      "            triggers.on_workflow_complete(self.wf_ex)",
+      "        if states.is_completed(state):\n"
+      "            self.wf_ex.accepted = True\n\n"
+      "            triggers.on_workflow_complete(self.wf_ex)\n"
+      "        else:\n            self.wf_ex.accepted = False"),
+    r('C05-ref-additive-positional', 'C05', W + 'direct_workflow.py',
+      "                ctx = data_flow.evaluate_upstream_context(\n"
+      "                    batch,\n"
+      "                    additive_context=ctx\n                )",
+      "                ctx = data_flow.evaluate_upstream_context(batch, "
+      "ctx)"),
+    r('C04-ref-walk-nested-ifs', 'C04', W + 'direct_workflow.py',
+      "            if t_name in all_joins and t_name in t_execs_cache:\n"
+      "                res.add(t_execs_cache[t_name])\n"
+      "                continue\n",
+      "            if t_name in all_joins:\n"
+      "                if t_name in t_execs_cache:\n"
+      "                    res.add(t_execs_cache[t_name])\n"
+      "                    continue\n"),
+    r('C12-ref-affected-inline-predicate', 'C12', E + 'task_handler.py',
+      "    if not task.is_completed():\n        return\n\n"
+      "    task_ex = task.task_ex\n",
+      "    if not states.is_completed(task.task_ex.state):\n"
+      "        return\n\n    task_ex = task.task_ex\n"),
+    r('C12-ref-processed-positional', 'C12', E + 'tasks.py',
+      "        self.set_state(states.RUNNING, None, processed=False)",
+      "        self.set_state(states.RUNNING, None, False)"),
+    r('C01-ref-dispatch-branch-order', 'C01', E + 'dispatcher.py',
+      "        elif isinstance(cmd, commands.SkipTask):\n"
+      "            task_handler.skip_task(cmd)\n"
+      "        elif isinstance(cmd, commands.SetWorkflowState):\n"
+      "            wf_handler.set_workflow_state(wf_ex, cmd.new_state, "
+      "cmd.msg)\n",
+      "        elif isinstance(cmd, commands.SetWorkflowState):\n"
+      "            wf_handler.set_workflow_state(wf_ex, cmd.new_state, "
+      "cmd.msg)\n"
+      "        elif isinstance(cmd, commands.SkipTask):\n"
+      "            task_handler.skip_task(cmd)\n"),
+    r('C20-ref-integrity-guard-order', 'C20', E + 'workflow_handler.py',
+      "        if not wf_ex:\n            return\n\n"
+      "        if states.is_completed(wf_ex.state):\n            return\n",
+      "        if not wf_ex or states.is_completed(wf_ex.state):\n"
+      "            return\n"),
+    r('C02-ref-version-prefix-renamed', 'C02', W + 'context_versioning.py',
+      "            new_prefix = k if not prefix else prefix + \".\" + k\n\n"
+      "            if isinstance(left_v, dict) and isinstance(v, dict):\n"
+      "                _merge_ctx(left_v, ver_left, v, ver_right, "
+      "new_prefix)",
+      "            new_prefix = k if not prefix else prefix + \".\" + k\n"
+      "            path = new_prefix\n\n"
+      "            if isinstance(left_v, dict) and isinstance(v, dict):\n"
+      "                _merge_ctx(left_v, ver_left, v, ver_right, "
+      "prefix=path)"),
     r('C07-ref-lock-name-format', 'C07', E + 'tasks.py',
       "        with db_api.named_lock('with-items-%s' % self.task_ex.id):",
       "        with db_api.named_lock('with-items-{}'.format("
